@@ -21,6 +21,27 @@ structure Auth where
   key : Bytes
 deriving DecidableEq, Repr
 
+/-- the mutable part of `TurnAuthState`: account, current realm / nonce, cached long-term key -/
+structure AuthSt where
+  username : Bytes
+  password : Bytes
+  realm : Bytes
+  nonce : Bytes
+  key : Bytes
+deriving DecidableEq, Repr
+
+/-- the state a successful `allocate` stores (`TurnAuthState::with_key` with the key of the challenge's realm) -/
+def AuthSt.afterAllocate (md5 : Bytes → Bytes) (username password realm nonce : Bytes) : AuthSt :=
+  ⟨username, password, realm, nonce, longTermKey md5 username realm password⟩
+
+/-- `TurnAuthState::update_nonce` after a 401 / 438 challenge: realm and nonce are replaced and the key is
+re-derived from the NEW realm -/
+def AuthSt.updateNonce (md5 : Bytes → Bytes) (s : AuthSt) (realm nonce : Bytes) : AuthSt :=
+  { s with realm := realm, nonce := nonce, key := longTermKey md5 s.username realm s.password }
+
+/-- what the request builders read -/
+def AuthSt.auth (s : AuthSt) : Auth := ⟨s.username, s.realm, s.nonce, s.key⟩
+
 def authAttrs (a : Auth) : List Attr := [.username a.username, .realm a.realm, .nonce a.nonce]
 
 /-- `allocate`: first attempt without credentials, retry with USERNAME/REALM/NONCE + long-term key -/
@@ -57,8 +78,31 @@ def nextChannel (n : Nat) : Nat × Nat :=
 /-- `send_channel_data`: ChannelData message (RFC 5766 §11.4) -/
 def channelData (channel : Nat) (data : Bytes) : Bytes := be16 channel ++ be16 data.length ++ data
 
-/-- `TurnClient::send` over TCP / `frame_stun_for_tcp`: RFC 4571 two-byte length prefix -/
-def tcpFrame (data : Bytes) : Bytes := be16 data.length ++ data
+/-- first two bits `01`: a ChannelData message (`b & 0xC0 == 0x40`) -/
+def isChannelByte (b : UInt8) : Bool := b.toNat / 64 = 1
+
+/-- `TurnClient::send` over TCP (RFC 5766 §2.1 / §11.5): no extra framing — a STUN message goes out as it
+is, a ChannelData message is padded with zeros to a multiple of four bytes -/
+def tcpWire (data : Bytes) : Bytes :=
+  match data with
+  | b :: _ => if isChannelByte b then data ++ zeros (pad4 data.length) else data
+  | [] => data
+
+/-- `TurnClient::recv` over TCP: the next message of the byte stream and the rest of the stream
+(`none`: more bytes are needed / read error) -/
+def tcpNext (stream : Bytes) : Option (Bytes × Bytes) :=
+  match stream with
+  | b0 :: b1 :: l0 :: l1 :: rest =>
+    if isChannelByte b0 then
+      if rest.length < rd16 l0 l1 + pad4 (rd16 l0 l1) then none
+      else some (b0 :: b1 :: l0 :: l1 :: rest.take (rd16 l0 l1), rest.drop (rd16 l0 l1 + pad4 (rd16 l0 l1)))
+    else
+      if rest.length < 16 + rd16 l0 l1 then none
+      else some (b0 :: b1 :: l0 :: l1 :: rest.take (16 + rd16 l0 l1), rest.drop (16 + rd16 l0 l1))
+  | _ => none
+
+/-- ICE-TCP candidates (RFC 6544 §10.1) do use RFC 4571 framing: `frame_stun_for_tcp` -/
+def rfc4571Frame (data : Bytes) : Bytes := be16 data.length ++ data
 
 /-- what `handle_turn_packet` does with a datagram from the TURN server -/
 inductive Rx where
